@@ -134,6 +134,15 @@ def r12_2(run):
            message='no test on both \\r and \\n lies between set_conf\'s arguments and the transport write: a value such as '
                    '"x\\r\\nSIGNAL HALT" puts a second command line on the wire')
     if ok_sc:
+        # ... and fires for a value with only a CR as well as for one with only an LF (the two atoms are alternatives)
+        gens = [n for n in walk_unit(sc) if isinstance(n, (ast.GeneratorExp, ast.ListComp)) and any(isinstance(c, ast.Constant) and c.value in ('\r', '\n') for c in ast.walk(n))]
+        for gn in gens:
+            tv = gn.generators[0].target.id if isinstance(gn.generators[0].target, ast.Name) else None
+            cond = gn.generators[0].ifs[0] if gn.generators[0].ifs else gn.elt
+            for sample, what in (('a\rb', 'CR'), ('a\nb', 'LF'), ('\r', 'CR alone'), ('x\n', 'trailing LF')):
+                r = eval_small(cond, {tv: sample})
+                run.ob('R12.2', sc, gn, 'the CR/LF test rejects a value containing only %s' % what, None if r is UNKNOWN else bool(r), slot='crlf-either:%s' % what,
+                       message='the CR/LF test %s is false for a value containing only %s: that value reaches the wire and splits the command line' % (src(cond)[:50], what))
         g = cfg_of(sc)
         # the guard looks at the stringified arguments (keys and values alike)
         gens = [n for n in walk_unit(sc) if isinstance(n, (ast.GeneratorExp, ast.ListComp)) and any(isinstance(c, ast.Constant) and c.value in ('\r', '\n') for c in ast.walk(n))]
@@ -216,6 +225,7 @@ RULES = [
 from ..selftest import M  # noqa: E402
 F = 'txtorcon/torcontrolprotocol.py'
 MUTANTS = [
+    M('crlf-both-required', F, "if any('\\r' in x or '\\n' in x for x in strargs):", "if any('\\r' in x and '\\n' in x for x in strargs):", ['R12.2']),
     M('args-rstripped', F, "        strargs = [str(x) for x in args]", "        strargs = [str(x).rstrip('\\r\\n') for x in args]", ['R12.3']),
     M('command-whitespace-collapsed', F, "            cmd = cmd.encode('ascii')\n        d = defer.Deferred()", "            cmd = re.sub(r'\\s+', ' ', cmd).encode('ascii')\n        d = defer.Deferred()", ['R12.4/R01.2']),
     M('no-escape', F, "return '\"%s\"' % s.replace('\\\\', '\\\\\\\\').replace('\"', '\\\\\"')", "return '\"%s\"' % s", ['R12.1']),
